@@ -234,8 +234,12 @@ func (gcs *GenerationalNBS) HasMany(ctx context.Context, hashes hash.HashSet) (h
 	if err != nil {
 		return nil, err
 	}
-	if len(absent) == 0 || gcs.ghostGen == nil {
+	if len(absent) == 0 {
 		return nil, err
+	}
+	if gcs.ghostGen == nil {
+		// no ghost store to consult: what neither generation has is absent
+		return absent, nil
 	}
 
 	return gcs.ghostGen.HasMany(ctx, absent)
